@@ -213,6 +213,18 @@ func (env *Env) field(x *SField) Value {
 						if c, ok := obj.(*types.Const); ok && c.Val().Kind() == constant.Int {
 							return Value{Typ: c.Type(), L: []Term{IStr(c.Val().ExactString())}}
 						}
+						// exported package-level variable of an imported package
+						if _, ok := obj.(*types.Var); ok && env.fv != nil && !env.noHeap {
+							if sp := env.enc.prog.Package(imp); sp != nil {
+								if g, ok := sp.Members[x.Name].(*ssa.Global); ok {
+									gv := env.st.get(g)
+									if gv.Place != nil {
+										return env.st.load(gv.Place)
+									}
+									return gv
+								}
+							}
+						}
 					}
 					env.fail("cannot resolve %s.%s", id.Name, x.Name)
 				}
@@ -650,6 +662,51 @@ func (env *Env) call(x *SCall) Value {
 		return env.lockPred(x)
 	case "unchanged":
 		return env.unchanged(x)
+	case "nondecreasing":
+		// nondecreasing(Type.field): on every object that existed before, a bool field that was
+		// set is still set / an integer field has not become smaller
+		if env.old == nil {
+			env.fail("nondecreasing() needs a two-state context")
+		}
+		tf := typeExprString(x.Args[0])
+		i := strings.LastIndex(tf, ".")
+		if i < 0 {
+			env.fail("nondecreasing: Type.field expected")
+		}
+		t := env.resolveType(tf[:i])
+		stt, ok := t.Underlying().(*types.Struct)
+		if !ok {
+			env.fail("nondecreasing: %s is not a struct type", tf[:i])
+		}
+		var ft types.Type
+		for k := 0; k < stt.NumFields(); k++ {
+			if stt.Field(k).Name() == tf[i+1:] {
+				ft = stt.Field(k).Type()
+			}
+		}
+		if ft == nil {
+			env.fail("nondecreasing: field %s not found", tf)
+		}
+		ls := flatten(ft)
+		if len(ls) != 1 || (ls[0].Sort != SBool && ls[0].Sort != SInt) {
+			env.fail("nondecreasing: %s is not a bool or integer field", tf)
+		}
+		name := "H_" + typeKey(t) + "." + tf[i+1:] + ls[0].Suffix
+		env.enc.registerRefLeaves("H_"+typeKey(t), t, 1)
+		cur := env.st.heapArr(name, arrSort(ls[0].Sort))
+		old := env.old.heapArr(name, arrSort(ls[0].Sort))
+		if cur.S == old.S {
+			return boolVal(TrueT)
+		}
+		r := Term{"r!u", SInt}
+		var rel Term
+		if ls[0].Sort == SBool {
+			rel = Implies(Select(old, r), Select(cur, r))
+		} else {
+			rel = Le(Select(old, r), Select(cur, r))
+		}
+		// (no lower bound: a pointer may name a sub-object, and those have negative references)
+		return boolVal(Forall([]string{"r!u"}, Implies(Lt(r, env.old.hwm), rel)))
 	case "ghost":
 		id := x.Args[0].(*SIdent)
 		return intVal(env.st.heapArr("GH_"+id.Name, SInt))
